@@ -191,8 +191,16 @@ func (s *Store) handleMergeCommand(merge *pb.MergeCommand) error {
 	}
 	updated := parentMeta
 	updated.Epoch.Version++
-	if len(sourceMeta.EndKey) == 0 || bytes.Compare(sourceMeta.EndKey, updated.EndKey) > 0 {
+	// The merged range is the union of two adjacent ranges: the source is either the
+	// target's right neighbour (the target's end moves to the source's end, which may be
+	// unbounded) or its left neighbour (the target's start moves to the source's start).
+	switch {
+	case len(parentMeta.EndKey) > 0 && bytes.Equal(parentMeta.EndKey, sourceMeta.StartKey):
 		updated.EndKey = append([]byte(nil), sourceMeta.EndKey...)
+	case len(sourceMeta.EndKey) > 0 && bytes.Equal(sourceMeta.EndKey, parentMeta.StartKey):
+		updated.StartKey = append([]byte(nil), sourceMeta.StartKey...)
+	default:
+		return fmt.Errorf("raftstore: source region %d is not adjacent to target region %d", sourceMeta.ID, parentMeta.ID)
 	}
 	if err := s.UpdateRegion(updated); err != nil {
 		return err
